@@ -14,7 +14,7 @@ import (
 
 func init() { Registry["C17"] = runC17 }
 
-const explanationC17 = "Decides structural necessary conditions of C17 on pkg/validation.go and the sites that share its vocabulary: (R17.1) one format vocabulary — expr.Format*, goa.Format* constants, ValidateFormat's case labels, IsSupportedValidationFormat's labels and codegen.constant's string→goa.FormatX table agree by constant value (bijective); (R17.2/R17.3) on every SSA path of ValidateFormat the verdict for format F is 'accept' exactly under the predicate the format names (the stdlib parser of that format with the right layout constant succeeded; ip = ParseIP ok; ipv4 = ParseIP ok ∧ dotted-quad; ipv6 = ParseIP ok ∧ ¬dotted-quad, same regexp object with opposite polarity; unknown formats are rejected), and validateUUID = Parse ok ∧ RFC4122 variant; (R17.4) every top-level alternative of the validator regular expressions is anchored at both ends; (R17.5) the pattern cache is read under RLock and written under Lock on every path, stores MustCompile(p) under key p, and the verdict is InvalidPatternError iff !MatchString of that very pattern. NOT decided: the exact language accepted by the stdlib parsers and by the hostname/ipv4 regular expressions beyond anchoring."
+const explanationC17 = "Decides structural necessary conditions of C17 on pkg/validation.go and the sites that share its vocabulary: (R17.1) one format vocabulary — expr.Format*, goa.Format* constants, ValidateFormat's case labels, IsSupportedValidationFormat's labels and codegen.constant's string→goa.FormatX table agree by constant value (bijective); (R17.2/R17.3) on every SSA path of ValidateFormat the verdict for format F is 'accept' exactly under the predicate the format names (the stdlib parser of that format with the right layout constant succeeded; ip = ParseIP ok; ipv4 = ParseIP ok ∧ dotted-quad; ipv6 = ParseIP ok ∧ ¬dotted-quad, same regexp object with opposite polarity; unknown formats are rejected), and validateUUID = Parse ok ∧ RFC4122 variant; (R17.4) every top-level alternative of the validator regular expressions is anchored at both ends; (R17.5) the pattern cache is read under RLock and written under Lock on every path, stores MustCompile(p) under key p, and the verdict is InvalidPatternError iff !MatchString of that very pattern. (R17.6) the generated validators call the format validator and the pattern validator independently (a declared pattern is enforced even when a format is declared too). NOT decided: the exact language accepted by the stdlib parsers and by the hostname/ipv4 regular expressions beyond anchoring."
 
 // parser predicate atoms per format (canonical names)
 var fmtPredicates = map[string][]string{
@@ -51,6 +51,7 @@ func runC17(c *an.Ctx) string {
 	r172ValidateFormat(c)
 	r174Regexes(c)
 	r175PatternCache(c)
+	keywordBlocksIndependent(c, "R17.6")
 	return explanationC17
 }
 
@@ -395,6 +396,7 @@ func r175PatternCache(c *an.Ctx) {
 		c.Undecidedf(rule, f.Name, f.Decl.Pos(), "ValidatePattern left the decidable fragment")
 		return
 	}
+	reEpoch := regexp.MustCompile(`@e\d+`)
 	reLock := regexp.MustCompile(`^\(\*sync\.(RW)?Mutex\)\.(RLock|RUnlock|Lock|Unlock)\(pkg\.knownPatternsLock\)$`)
 	var lockProbs, keyProbs, verdictProbs []string
 	hits, misses := 0, 0
@@ -420,7 +422,7 @@ func r175PatternCache(c *an.Ctx) {
 					if held == "" {
 						lockProbs = append(lockProbs, "the cache is read without holding the lock")
 					}
-					if e.Term != "pkg.knownPatterns[p2]" {
+					if reEpoch.ReplaceAllString(e.Term, "") != "pkg.knownPatterns[p2]" {
 						keyProbs = append(keyProbs, "the cache is looked up under "+e.Term+", not under the pattern")
 					}
 				}
@@ -438,32 +440,38 @@ func r175PatternCache(c *an.Ctx) {
 		if held != "" {
 			lockProbs = append(lockProbs, "a path returns with the cache lock held")
 		}
-		// verdict
-		hit, known := false, false
+		// verdict: the regexp matched is either freshly compiled from p, or the value of a cache
+		// lookup that reported a hit on this very path (a lookup made under another lock epoch is
+		// another value: the cache may have changed in between)
 		matched, mknown := false, false
 		for _, a := range p.Atoms {
-			if a.Term == "pkg.knownPatterns[p2]#1" {
-				hit, known = a.Val, true
-			}
 			if strings.HasPrefix(a.Term, "(*regexp.Regexp).MatchString(") && strings.HasSuffix(a.Term, ", p1)") {
 				matched, mknown = a.Val, true
 				regexTerm = strings.TrimSuffix(strings.TrimPrefix(a.Term, "(*regexp.Regexp).MatchString("), ", p1)")
 			}
 		}
-		if !known || !mknown {
-			verdictProbs = append(verdictProbs, "path ["+p.GuardString()+"] does not test the cache hit and the match")
+		if !mknown {
+			verdictProbs = append(verdictProbs, "path ["+p.GuardString()+"] does not test the match")
 			continue
 		}
-		if hit {
-			hits++
-			if regexTerm != "pkg.knownPatterns[p2]#0" {
-				verdictProbs = append(verdictProbs, "on a cache hit the value is matched against "+regexTerm)
-			}
-		} else {
+		switch {
+		case regexTerm == "regexp.MustCompile(p2)":
 			misses++
-			if regexTerm != "regexp.MustCompile(p2)" {
-				verdictProbs = append(verdictProbs, "on a cache miss the value is matched against "+regexTerm)
+		case strings.HasPrefix(regexTerm, "pkg.knownPatterns[p2]") && strings.HasSuffix(regexTerm, "#0"):
+			hitAtom := strings.TrimSuffix(regexTerm, "#0") + "#1"
+			isHit := false
+			for _, a := range p.Atoms {
+				if a.Term == hitAtom && a.Val {
+					isHit = true
+				}
 			}
+			if isHit {
+				hits++
+			} else {
+				verdictProbs = append(verdictProbs, "the value is matched against the result of a cache lookup that missed (a nil regexp) on path ["+p.GuardString()+"]")
+			}
+		default:
+			verdictProbs = append(verdictProbs, "the value is matched against "+regexTerm)
 		}
 		accept := len(p.Ret) == 1 && p.Ret[0] == "nil"
 		reject := len(p.Ret) == 1 && strings.HasPrefix(p.Ret[0], "pkg.InvalidPatternError(p0, p1, p2)")
